@@ -171,6 +171,22 @@ def _insert_before_global_settings(content: str, sections_text: str, insert_pos:
     return content[:insert_pos] + sections_text + "\n\n" + content[insert_pos:]
 
 
+def _split_document_end(content: str) -> tuple[str, str]:
+    """Split off a trailing YAML document-end marker ('...') and the comments after it.
+
+    Text appended after the marker would start a second document, so new sections
+    have to go in front of it.
+    """
+    lines = content.split("\n")
+    for i in range(len(lines) - 1, -1, -1):
+        stripped = lines[i].strip()
+        if stripped == "...":
+            return "\n".join(lines[:i]), "\n".join(lines[i:]) + "\n"
+        if stripped and not stripped.startswith("#"):
+            break
+    return content, ""
+
+
 def merge_config_sections(existing_content: str, missing_sections: dict[str, str]) -> str:
     """Merge missing sections into existing config content.
 
@@ -189,7 +205,8 @@ def merge_config_sections(existing_content: str, missing_sections: dict[str, str
 
     if insert_pos > 0:
         return _insert_before_global_settings(existing_content, sections_text, insert_pos)
-    return existing_content.rstrip() + "\n\n" + sections_text + "\n"
+    body, document_end = _split_document_end(existing_content.rstrip())
+    return body.rstrip() + "\n\n" + sections_text + "\n" + document_end
 
 
 def _parse_existing_config(content: str, output: str) -> dict:
